@@ -201,7 +201,7 @@ class MainModel:
                             known[pn] = c_["value"]
                         elif c_.get("k") == "CXXBoolLiteralExpr":
                             known[pn] = 1 if c_["value"] else 0
-                    sm = self.eff.summary(fn, cls if call.get("callee_virtual") else None, known=known)
+                    sm = self.eff.summary(fn, cls, known=known)
                     argmap = {}
                     names = [p["name"] for p in fn["params"]]
                     for pn, a_ in zip(names, call.get("args", [])):
@@ -406,3 +406,17 @@ class MainModel:
                 return asg[t[0]] == t[1]
             out.append((asg, self.cfg.pruned(decide)))
         return out
+
+
+    def output_block(self):
+        """the IfStmt of the loop body that holds the per-record output (the one that appends to the results file)"""
+        loop = self.main_loop()
+        body = loop["body"]
+        cands = []
+        for x in A.walk(body):
+            if x["k"] == "IfStmt" and any((y.get("callee") or "").startswith("vfps::HDF5File::append") for y in A.walk(x["then"])):
+                cands.append(x)
+        # outermost candidate that is a direct statement of the loop body
+        top = [x for x in cands if not any(x["id"] in {y["id"] for y in A.walk(o["then"])} for o in cands if o is not x)]
+        A.require(len(top) == 1, "main: output block of the loop not found (%d candidates)" % len(top))
+        return top[0]
